@@ -7,7 +7,9 @@ fixes/C13-01 .. C13-05 applied, plus two later repairs that add tokens without c
 synchronisation structure: b9d189d (clientInput's WebSocket drain loop re-reads the client's own
 `cl->state`: the input thread stops processing buffered input once the client is marked for shutdown;
 the model's input thread takes no step on behalf of a client in that state anyway) and 53e39a2
-(rfbNewFramebuffer frees a library-derived rich cursor image while it holds cursorMutex).  `tools/consts/c13.py` regenerates the same list from the working tree
+(rfbNewFramebuffer frees a library-derived rich cursor image while it holds cursorMutex) and a84b8cc
+(rfbShutdownServer calls rfbClientConnectionGone itself for a client that was put on hold and never
+started instead of joining a thread that does not exist; clients on hold are outside the model).  `tools/consts/c13.py` regenerates the same list from the working tree
 on every run (`VncModel.Gen.C13.skeleton`); `Props.C13.skeleton_matches` compares the two. -/
 namespace VncModel.Threads
 
@@ -19,7 +21,7 @@ def expectedSkeleton : List (String × List String) := [
   ("rfbMarkRegionAsModified", ["rfbGetClientIterator", "rfbClientIteratorNext", "LOCK updateMutex", "TSIGNAL updateCond", "UNLOCK updateMutex", "rfbReleaseClientIterator"]),
   ("rfbScheduleCopyRegion", ["rfbGetClientIterator", "rfbClientIteratorNext", "LOCK updateMutex", "TSIGNAL updateCond", "UNLOCK updateMutex", "rfbReleaseClientIterator"]),
   ("rfbNewFramebuffer", ["rfbGetClientIterator", "rfbClientIteratorNext", "break", "rfbIncrClientRef", "LOCK sendMutex", "rfbReleaseClientIterator", "LOCK cursorMutex", "free", "LOCK updateMutex", "TSIGNAL updateCond", "UNLOCK updateMutex", "UNLOCK sendMutex", "rfbDecrClientRef", "free", "UNLOCK cursorMutex"]),
-  ("rfbShutdownServer", ["rfbShutdownSockets", "pipewrite listener", "pthread_join", "rfbGetClientIteratorWithClosed", "rfbClientIteratorNext", "rfbCloseClient", "rfbClientIteratorNext", "pthread_join", "rfbClientConnectionGone", "rfbClientConnectionGone", "rfbReleaseClientIterator"]),
+  ("rfbShutdownServer", ["rfbShutdownSockets", "pipewrite listener", "pthread_join", "rfbGetClientIteratorWithClosed", "rfbClientIteratorNext", "rfbCloseClient", "rfbClientIteratorNext", "rfbClientConnectionGone", "pthread_join", "rfbClientConnectionGone", "rfbClientConnectionGone", "rfbReleaseClientIterator"]),
   ("rfbScreenCleanup", ["rfbGetClientIteratorWithClosed", "rfbClientIteratorNext", "rfbClientIteratorNext", "rfbClientConnectionGone", "rfbReleaseClientIterator", "free", "TINI_MUTEX cursorMutex", "free", "free", "free"]),
   ("rfbRunEventLoop", ["pthread_create", "return", "return"]),
   ("rfbIncrClientRef", ["LOCK refCountMutex", "UNLOCK refCountMutex"]),
